@@ -76,36 +76,40 @@ Record rres := mkr {
   r_raised : bool;           (* an exception escaped (PassBugError with die_on_pass_bug) *)
   r_x : X;
   r_futs : list nat;         (* self.futures at return (their folders are still held) *)
+  r_released : list nat;     (* futures whose folder was released by release_future *)
   r_sched : nat;             (* candidates scheduled = add_executed calls *)
   r_sch : sched;
   r_fuel : bool              (* false = fuel exhausted: never for fuel >= m *)
 }.
 
-Fixpoint loop (fuel:nat) (j:nat) (fs:list fut) (sch:sched) (x:X) : rres :=
+Fixpoint loop (fuel:nat) (j:nat) (fs:list fut) (rel:list nat) (sch:sched) (x:X) : rres :=
   match fuel with
-  | 0 => mkr None false x (map fid fs) j sch false
+  | 0 => mkr None false x (map fid fs) rel j sch false
   | S fuel' =>
     (* do not create too many states: wait(FIRST_COMPLETED) *)
     let blocked := (N <=? length fs) && negb (existsb fdone fs) && negb (Nat.eqb (length fs) 0) in
     let fs1 := if blocked then force (Nat.modulo (shd sch) (length fs)) fs else fs in
     let sch1 := if blocked then tl sch else sch in
     let r := scan false fs1 sch1 x in
-    if s_raise r then mkr None true (s_x r) (map fid (s_kept r)) j (s_sch r) true
-    else if s_quit r then
+    (* an exception leaves process_done_futures before any release_future call *)
+    if s_raise r then mkr None true (s_x r) (map fid fs1) rel j (s_sch r) true
+    else
+    let rel' := rel ++ s_drop r in
+    if s_quit r then
       match wfs (s_kept r) (s_x r) with
-      | (Some w, x') => mkr w false x' (map fid (s_kept r)) j (s_sch r) true
-      | (None, x') => mkr None true x' (map fid (s_kept r)) j (s_sch r) true
+      | (Some w, x') => mkr w false x' (map fid (s_kept r)) rel' j (s_sch r) true
+      | (None, x') => mkr None true x' (map fid (s_kept r)) rel' j (s_sch r) true
       end
     else
       let fs2 := s_kept r ++ [mkf j false] in
-      if S j <? m then loop fuel' (S j) fs2 (s_sch r) (s_x r)
+      if S j <? m then loop fuel' (S j) fs2 rel' (s_sch r) (s_x r)
       else match wfs fs2 (s_x r) with
-           | (Some w, x') => mkr w false x' (map fid fs2) (S j) (s_sch r) true
-           | (None, x') => mkr None true x' (map fid fs2) (S j) (s_sch r) true
+           | (Some w, x') => mkr w false x' (map fid fs2) rel' (S j) (s_sch r) true
+           | (None, x') => mkr None true x' (map fid fs2) rel' (S j) (s_sch r) true
            end
   end.
 
-Definition round (sch:sched) (x:X) : rres := loop m 0 [] sch x.
+Definition round (sch:sched) (x:X) : rres := loop m 0 [] [] sch x.
 
 (* the textbook loop: one candidate at a time, first non-IGNORE decides *)
 Fixpoint seq_from (fuel j:nat) (x:X) : option nat * X :=
